@@ -13,3 +13,10 @@ def c01_sw_negative_in_64bit(case, reason):
     """F21: an operand is the signed 32-bit register view `sw` holding a negative value (spec flag
     SwNegative) and the destination is 8 bytes wide: the register is used without sign extension"""
     return case.get("verdict") == "wrong" and case.get("sw_negative") is True and case.get("dst_size") == 8
+
+
+def c03_sw_negative_against_wide(case, reason):
+    """F21 as it shows in C03: some comparison of the program has the signed 32-bit register view `sw`
+    holding a negative value on one side while the other side counts as 64 bits wide (spec flag
+    StmtsSwNeg): the register is compared without sign extension"""
+    return case.get("verdict") == "wrong" and case.get("cmp_sw_negative") is True
